@@ -155,6 +155,12 @@ struct ctl_server
         std::string buf;
         auto play = [&](const std::string & line) -> bool {
             std::vector<std::string> out; group g;
+            if (line == "ABOR" && core.reactive_abor_armed)
+            {
+                // give the data peer a moment to notice the end of the data connection, if the client closed it before ABOR
+                for (int i = 0; i < 30 && !core.peer.done; i++) std::this_thread::sleep_for(std::chrono::milliseconds(10));
+                core.data_ended_first = core.peer.done && core.peer.saw_eof;
+            }
             {
                 std::lock_guard<std::mutex> l(mu);
                 out = core.on_command(line);
